@@ -182,6 +182,7 @@ Definition length_capacity (fn : lcfn) (n : node) (a : arg) (path : list string)
     match header_x a with
     | inr k => Panic k
     | inl None => Ret res0 None
+    | inl (Some CNil) => Ret res0 None                 (* if x == nil { return nil } (fix: 1a38871) *)
     | inl (Some c) =>
       match lc fn (root_for fn n) c 0 path res0 with
       | Fall r => Ret r None
